@@ -67,9 +67,11 @@ func (p *pstate) clone() *pstate {
 func (p *pstate) sig() string {
 	var b strings.Builder
 	for _, s := range p.secs {
-		b.WriteString(s.Mode)
+		if s.Mode != "N" {
+			b.WriteString(s.Mode)
+		}
 	}
-	fmt.Fprintf(&b, "|%d|%d", p.open, len(p.defers))
+	fmt.Fprintf(&b, "|%v|%d", p.open >= 0, len(p.defers))
 	return b.String()
 }
 
